@@ -12,16 +12,16 @@ Definition tbusy1 (v : variants) (g : glob) : glob :=
 Definition tbusy (v : variants) (g : glob) : glob := tbusy1 v (tbusy1 v (tbusy1 v g)).
 Definition talive (g : glob) : bool := mt_live (mt g).
 Definition tseq (v : variants) : glob -> list sop -> list (list nat) :=
-  run_seq glob cpc op lock (cstep v) (mstep v) is_idle Idle Start Stop StartF tview (tbusy v) talive tserving.
+  run_seq glob cpc op lock (cstep v) (mstep v) is_idle Idle Start Stop StartF StartT tview (tbusy v) talive tserving.
 Definition tseq_step (v : variants) :=
-  seq_step glob cpc op lock (cstep v) (mstep v) is_idle Idle Start Stop StartF tview (tbusy v) talive tserving.
+  seq_step glob cpc op lock (cstep v) (mstep v) is_idle Idle Start Stop StartF StartT tview (tbusy v) talive tserving.
 
 Definition hview (g : hglob) : list nat := [b2 (herr g); b2 (hsock_open (hsock g)); b2 (hmt_live (hmt g))].
 (* an HTTP request: refused when the listening socket is closed; answered when the accept loop
    runs; otherwise the connection is accepted by the kernel backlog and never answered *)
 Definition hserving (g : hglob) : nat :=
   if hsock_open (hsock g) then (if hloop_pc (hmt g) && negb (sreq g) then 1 else 2) else 0.
-Definition hseq (close_on_stop : bool) : hglob -> list sop -> list (list nat) :=
-  run_seq hglob hpc hop hlock (hcstep close_on_stop) hmstep his_idle HIdle HStart HStop HStartF hview (fun g => g) (fun g => hmt_live (hmt g)) hserving.
-Definition hseq_step (close_on_stop : bool) :=
-  seq_step hglob hpc hop hlock (hcstep close_on_stop) hmstep his_idle HIdle HStart HStop HStartF hview (fun g => g) (fun g => hmt_live (hmt g)) hserving.
+Definition hseq (close_on_stop cleanup : bool) : hglob -> list sop -> list (list nat) :=
+  run_seq hglob hpc hop hlock (hcstep close_on_stop cleanup) hmstep his_idle HIdle HStart HStop HStartF HStartT hview (fun g => g) (fun g => hmt_live (hmt g)) hserving.
+Definition hseq_step (close_on_stop cleanup : bool) :=
+  seq_step hglob hpc hop hlock (hcstep close_on_stop cleanup) hmstep his_idle HIdle HStart HStop HStartF HStartT hview (fun g => g) (fun g => hmt_live (hmt g)) hserving.
